@@ -9,6 +9,9 @@ require (
 	pgregory.net/rapid v1.3.0
 )
 
-require github.com/gorilla/websocket v1.5.3 // indirect
+require (
+	github.com/gdamore/optopia v0.2.0 // indirect
+	github.com/gorilla/websocket v1.5.3 // indirect
+)
 
 replace go.nanomsg.org/mangos/v3 => /repo
